@@ -4,7 +4,7 @@
 set -e
 cd "$(dirname "$0")"
 mkdir -p work evidence
-java -cp /opt/veriftools/tla/tla2tools.jar tlc2.TLC -h >/dev/null 2>&1 || { echo "TLC not available"; exit 1; }
+test -f /opt/veriftools/tla/tla2tools.jar && java -version >/dev/null 2>&1 || { echo "TLC/java not available"; exit 1; }
 PYTHONPATH=/repo /venv/bin/python -c "import nutree" || { echo "nutree not importable"; exit 1; }
 if command -v python3-vt >/dev/null; then
 python3-vt - <<'PY'
